@@ -332,8 +332,8 @@ func splitFunSig(sig string) (args []string, ret string) {
 
 // noteKind records that heap array `name` holds addresses (KPtr) ; "#arr" components hold array ids.
 func (g *Gen) noteKind(name string, k Kind) {
-	if k == KPtr {
-		g.heapKind[name] = KPtr
+	if k == KPtr || k == KIface {
+		g.heapKind[name] = k
 	}
 }
 
@@ -350,6 +350,16 @@ func (g *Gen) rangeAxiom(h *Heap, name, s string) {
 		bound = g.abrk(&State{heap: h})
 	case g.heapKind[name] == KPtr:
 		bound = g.brk(&State{heap: h})
+	case g.heapKind[name] == KIface:
+		// an interface value stored in the heap refers (if it holds a pointer) to an allocated object
+		bound = g.brk(&State{heap: h})
+		switch srt {
+		case "(Array Int Int)":
+			g.emit(fmt.Sprintf("(assert (forall ((p Int)) (! (< (ifptr (select %s p)) %s) :pattern ((select %s p)))))", s, bound, s))
+		case "(Array Int (Array Int Int))":
+			g.emit(fmt.Sprintf("(assert (forall ((a Int) (i Int)) (! (< (ifptr (select (select %s a) i)) %s) :pattern ((select (select %s a) i)))))", s, bound, s))
+		}
+		return
 	default:
 		return
 	}
@@ -689,6 +699,10 @@ func (g *Gen) typeFacts(st *State, v *Val, guard string) {
 	case KPtr:
 		if !isConstTerm(v.S) {
 			g.assume(guard, "(< "+v.S+" "+g.brk(st)+")")
+		}
+	case KIface:
+		if !isConstTerm(v.S) {
+			g.assume(guard, "(< (ifptr "+v.S+") "+g.brk(st)+")") // an interface value refers to an allocated object
 		}
 	case KSlice:
 		if isConstTerm(v.Len) && isConstTerm(v.Arr) {
